@@ -55,7 +55,7 @@ Print Assumptions C15_var_code_roundtrip.
 
 (** one node: [decode_node (encode_node ctx nd) = nd] in the importer's state *)
 Theorem C15_node_roundtrip : forall k slm nlevels l j nd rest,
-  k = KBDD \/ k = KBCDD ->
+  k = KBCDD ->
   wf_dag (N.of_nat (length slm)) l -> incr slm -> Forall (fun x => x < level_max) slm ->
   N.of_nat (length slm) < usize_limit ->
   nth_error l j = Some nd ->
@@ -69,7 +69,7 @@ Print Assumptions C15_node_roundtrip.
 (** the whole binary node section: [import_nodes (export_nodes dag) = dag] with node ID
     [i + 2] renamed to unique-table index [i] *)
 Theorem C15_nodes_roundtrip : forall k slm nlevels l rest,
-  k = KBDD \/ k = KBCDD ->
+  k = KBCDD ->
   wf_dag (N.of_nat (length slm)) l -> incr slm -> Forall (fun x => x < level_max) slm ->
   N.of_nat (length slm) < usize_limit ->
   N.of_nat (length l) + 1 < usize_limit ->
@@ -85,7 +85,7 @@ Print Assumptions C15_nodes_roundtrip_empty.
 
 (** node section + [.end] + root references *)
 Theorem C15_file_body_roundtrip : forall k vin slm nlevels l rootids,
-  k = KBDD \/ k = KBCDD ->
+  k = KBCDD ->
   wf_dag (N.of_nat (length slm)) l -> incr slm -> Forall (fun x => x < level_max) slm ->
   N.of_nat (length slm) < usize_limit ->
   N.of_nat (length l) + 1 < usize_limit ->
